@@ -8,6 +8,7 @@ from fractions import Fraction
 import common
 from common import zl, ql, bl, lst, zlist, qlist, frac
 from translate import Anchors
+from props.C11 import norm
 
 PID = "C05"
 ZN = "acryo/backend/_zncc.py"
@@ -43,6 +44,15 @@ def anchors(a: Anchors):
            else (_ for _ in ()).throw(Exception("offset expression changed shape")))
     a.expr("fsc_out_len", FS, "fsc_landscape", ("comp_elt", "out_shape"), {"m": "Q"}, want="Z")
     a.expr("fsc_phase_half", FS, "_get_phase_1d", ("assign", "s"), {"size": "Z"}, want="Z")
+    a.fact("fsc_phase_lags_range", FS, "_get_phase_1d", "rng = range(-s, s + 1); one phase ramp exp(2j pi x0 mesh) per lag x0",
+           lambda fn: (lambda t: "rng=range(-s,s+1)" in t and "return[backend.exp(2j*np.pi*x0*mesh)forx0inrng]" in t)(norm(ast.unparse(fn))))
+    a.fact("fsc_phases_per_axis", FS, "_get_phases", "axis a: _get_phase_1d(mesh[a], out_shape[a]); landscape loops z, y, x in that order and writes out[iz, iy, ix]",
+           lambda fn: (lambda t: all(x in t for x in ["phase_z=_get_phase_1d(mesh[0],out_shape[0],backend)", "phase_y=_get_phase_1d(mesh[1],out_shape[1],backend)",
+                                                        "phase_x=_get_phase_1d(mesh[2],out_shape[2],backend)", "return(phase_z,phase_y,phase_x)"]))(norm(ast.unparse(fn))))
+    a.fact("fsc_landscape_loops_zyx", FS, "fsc_landscape", "for iz, phiz in enumerate(phase_z) ... out[iz, iy, ix] = mean FSC",
+           lambda fn: (lambda t: all(x in t for x in ["phase_z,phase_y,phase_x=_get_phases(shape,out_shape,backend)", "foriz,phizinenumerate(phase_z):ft0_shifted_z=ft0*phiz",
+                                                        "foriy,phiyinenumerate(phase_y):ft0_shifted_yz=ft0_shifted_z*phiy", "forix,phixinenumerate(phase_x):ft0_shifted=ft0_shifted_yz*phix",
+                                                        "out[iz,iy,ix]=float(fsc.mean())"]))(norm(ast.unparse(fn))))
     # PCC
     for fn in ("crop_by_max_shifts", "pcc_landscape"):
         a.expr(f"{fn}_center", PC, fn, ("comp_elt", "centers"), {"s": "Z"}, want="Z")
